@@ -48,11 +48,11 @@ theorem setToks_scope (c : Cfg) (sc : Sc) (k : Nat) (tok : Tok) (h : tok ∈ ops
 theorem release_count_le_one (c : Cfg) (ip dom : Nat) (tok : Tok) :
     (opsToks c (releaseMsgProg c ip dom)).count tok ≤ 1 := by
   simp only [releaseMsgProg, opsToks_append, List.count_append, globToks_eq]
-  have h1 := setToks_count_le c .ip ip tok
+  have h1 := setToks_count_le c .ip (c.keys.rel ip) tok
   have h2 := setToks_count_le c .src dom tok
   cases tok with
   | g i =>
-    have e1 : (opsToks c (relSet c .ip ip)).count (.g i) = 0 := by
+    have e1 : (opsToks c (relSet c .ip (c.keys.rel ip))).count (.g i) = 0 := by
       rw [List.count_eq_zero]; intro h; rcases setToks_scope c _ _ _ h with ⟨_, h⟩ | h <;> simp at h
     have e2 : (opsToks c (relSet c .src dom)).count (.g i) = 0 := by
       rw [List.count_eq_zero]; intro h; rcases setToks_scope c _ _ _ h with ⟨_, h⟩ | h <;> simp at h
@@ -65,11 +65,11 @@ theorem release_count_le_one (c : Cfg) (ip dom : Nat) (tok : Tok) :
         rw [List.count_eq_zero]; intro h; rcases setToks_scope c _ _ _ h with ⟨_, h⟩ | h <;> simp at h
       omega
     | src =>
-      have e1 : (opsToks c (relSet c .ip ip)).count (.b .src k i) = 0 := by
+      have e1 : (opsToks c (relSet c .ip (c.keys.rel ip))).count (.b .src k i) = 0 := by
         rw [List.count_eq_zero]; intro h; rcases setToks_scope c _ _ _ h with ⟨_, h⟩ | h <;> simp at h
       omega
     | dst =>
-      have e1 : (opsToks c (relSet c .ip ip)).count (.b .dst k i) = 0 := by
+      have e1 : (opsToks c (relSet c .ip (c.keys.rel ip))).count (.b .dst k i) = 0 := by
         rw [List.count_eq_zero]; intro h; rcases setToks_scope c _ _ _ h with ⟨_, h⟩ | h <;> simp at h
       omega
   | use sc k =>
@@ -80,18 +80,18 @@ theorem release_count_le_one (c : Cfg) (ip dom : Nat) (tok : Tok) :
         rw [List.count_eq_zero]; intro h; rcases setToks_scope c _ _ _ h with ⟨_, h⟩ | h <;> simp at h
       omega
     | src =>
-      have e1 : (opsToks c (relSet c .ip ip)).count (.use .src k) = 0 := by
+      have e1 : (opsToks c (relSet c .ip (c.keys.rel ip))).count (.use .src k) = 0 := by
         rw [List.count_eq_zero]; intro h; rcases setToks_scope c _ _ _ h with ⟨_, h⟩ | h <;> simp at h
       omega
     | dst =>
-      have e1 : (opsToks c (relSet c .ip ip)).count (.use .dst k) = 0 := by
+      have e1 : (opsToks c (relSet c .ip (c.keys.rel ip))).count (.use .dst k) = 0 := by
         rw [List.count_eq_zero]; intro h; rcases setToks_scope c _ _ _ h with ⟨_, h⟩ | h <;> simp at h
       omega
 
 /-- Which bucket keys the tokens of a message mention. -/
 theorem release_use_key (c : Cfg) (ip dom : Nat) (sc : Sc) (k : Nat)
     (h : Tok.use sc k ∈ opsToks c (releaseMsgProg c ip dom)) :
-    (sc = .ip ∧ k = ip) ∨ (sc = .src ∧ k = dom) := by
+    (sc = .ip ∧ k = c.keys.rel ip) ∨ (sc = .src ∧ k = dom) := by
   simp only [releaseMsgProg, opsToks_append, List.mem_append, globToks_eq] at h
   rcases h with (h | h) | h
   · simp at h
@@ -194,6 +194,7 @@ structure SoloCtx (c : Cfg) (s : St) (j : Nat) (call : Call) (k : Nat) (t : Task
   tj : s.tasks[j]? = some t
   outs : ∀ tok, (msgToks c t.outMsg).count tok + (destToks c t.outDest).count tok = k * (call.toks c).count tok
   maxB : 1 ≤ c.maxB
+  law : c.keys.Lawful
 
 theorem lim_take_ok (l : LimSt) (hk : l.kind = .sem) (h : l.real → l.len < l.cap) : ∃ l', l.take = some l' := by
   unfold LimSt.take
@@ -449,14 +450,14 @@ theorem solo_finish (c : Cfg) (j : Nat) (call : Call) (L : List Lim) (k : Nat) (
     have hgo : t.go c s.g = (s.g, t.finishTake call) := by simp [Task.go, hpc]
     have hstep := step_go_eq c s j t hx.tj
     rw [hgo] at hstep
-    have hinv : Inv c (step c s (.go j)) := step_inv c s (.go j) hx.inv (by rw [hstep]; exact hm)
+    have hinv : Inv c (step c s (.go j)) := step_inv c hx.law s (.go j) hx.inv (by rw [hstep]; exact hm)
     rw [hstep] at hinv ⊢
     let t' := t.finishTake call
     obtain ⟨ho, hidle, hres⟩ := finishTake_spec c call k t hs.isTake hx.outs
     have htj : ({ s with g := s.g, tasks := s.tasks.set j t' } : St).tasks[j]? = some t' :=
       set_get_same _ j t t' hx.tj
     rw [finish_idle c j f _ t' htj hidle]
-    exact ⟨t', ⟨hinv, hx.stale, OthersIdle.set s j s.g t' hx.others, htj, ho, hx.maxB⟩, hm, hidle, hres⟩
+    exact ⟨t', ⟨hinv, hx.stale, OthersIdle.set s j s.g t' hx.others, htj, ho, hx.maxB, hx.law⟩, hm, hidle, hres⟩
   | cons e rest ih =>
     obtain ⟨op, u⟩ := e
     intro fuel s t hx hm hpc hf
@@ -470,12 +471,12 @@ theorem solo_finish (c : Cfg) (j : Nat) (call : Call) (L : List Lim) (k : Nat) (
       simp [Task.go, hpc, hacq]
     have hstep := step_go_eq c s j t hx.tj
     rw [hgo] at hstep
-    have hinv : Inv c (step c s (.go j)) := step_inv c s (.go j) hx.inv (by rw [hstep]; exact hm)
+    have hinv : Inv c (step c s (.go j)) := step_inv c hx.law s (.go j) hx.inv (by rw [hstep]; exact hm)
     rw [hstep] at hinv ⊢
     let t1 : Task := { t with pc := .taking call rest }
     have htj : ({ s with g := g', tasks := s.tasks.set j t1 } : St).tasks[j]? = some t1 :=
       set_get_same _ j t t1 hx.tj
-    exact ih f _ t1 ⟨hinv, hst, OthersIdle.set s j g' t1 hx.others, htj, hx.outs, hx.maxB⟩ hm rfl
+    exact ih f _ t1 ⟨hinv, hst, OthersIdle.set s j g' t1 hx.others, htj, hx.outs, hx.maxB, hx.law⟩ hm rfl
       (by simp at hf ⊢; omega)
 
 theorem takeSet_length (c : Cfg) (sc : Sc) (k : Nat) (outer : List MOp) :
@@ -483,8 +484,8 @@ theorem takeSet_length (c : Cfg) (sc : Sc) (k : Nat) (outer : List MOp) :
   unfold takeSet; split <;> simp
 
 theorem takeMsgProg_length (c : Cfg) (ip dom : Nat) : (takeMsgProg c ip dom).length + 1 ≤ Call.fuel c := by
-  have h1 := takeSet_length c .ip ip (relGAll c)
-  have h2 := takeSet_length c .src dom (relGAll c ++ relSet c .ip ip)
+  have h1 := takeSet_length c .ip (c.keys.take ip) (relGAll c)
+  have h2 := takeSet_length c .src dom (relGAll c ++ relSet c .ip (c.keys.undo ip))
   simp only [takeMsgProg, takeGlob, List.length_append, List.length_map, List.length_range, Call.fuel, Cfg.ctors] at *
   omega
 
@@ -524,7 +525,7 @@ theorem solo_call (c : Cfg) (s : St) (j : Nat) (call : Call) (L : List Lim) (k :
   have hstep : step c s (.begin j call) = { s with tasks := s.tasks.set j t0, misuse := s.misuse } := by
     simp [step, hx.tj, hpc, begin_take c t call hs.isTake, t0]
   have hm1 : (step c s (.begin j call)).misuse = false := by rw [hstep]; exact hm
-  have hinv := step_inv c s (.begin j call) hx.inv hm1
+  have hinv := step_inv c hx.law s (.begin j call) hx.inv hm1
   rw [hstep] at hinv hm1 ⊢
   have htj : ({ s with tasks := s.tasks.set j t0, misuse := s.misuse } : St).tasks[j]? = some t0 :=
     set_get_same _ j t t0 hx.tj
@@ -533,7 +534,7 @@ theorem solo_call (c : Cfg) (s : St) (j : Nat) (call : Call) (L : List Lim) (k :
     simp only [set_get_ne _ i j t0 hi] at hxx
     exact hx.others i x hi hxx
   exact solo_finish c j call L k hs hcap _ _ _ t0
-    ⟨hinv, hx.stale, ho, htj, hx.outs, hx.maxB⟩ hm1 rfl (Call.prog_length c call)
+    ⟨hinv, hx.stale, ho, htj, hx.outs, hx.maxB, hx.law⟩ hm1 rfl (Call.prog_length c call)
 
 /-! ### the two take calls -/
 
